@@ -5607,6 +5607,9 @@ def format_float8(value):
             field = f"{value:8.1f}"
             if field.index(".") < 8:
                 field = f"{round(value):8.1f}"[0:8]
+                if "." not in field:
+                    # rounded up to 8 integer digits: no room for the decimal point
+                    field = _format_scientific8(value)
             else:
                 field = _format_scientific8(value)
             return field
@@ -5777,6 +5780,9 @@ def format_float16(value):
             field = f"{value:16.1f}"
             if field.index(".") < 16:
                 field = f"{round(value):16.1f}"[0:16]
+                if "." not in field:
+                    # rounded up to 16 integer digits: no room for the decimal point
+                    field = _format_scientific16(value)
             else:
                 field = _format_scientific16(value)
             return field
@@ -5836,6 +5842,9 @@ def format_float16(value):
                 raise
             if ifield < 16:
                 field = f"{int(round(value, 0)):15d}."
+                if len(field) > 16:
+                    # rounded up to 15 integer digits: sign + digits + point no longer fit
+                    field = _format_scientific16(value)
             else:
                 field = _format_scientific16(value)
             return field
